@@ -1350,10 +1350,6 @@ class DirStateWorkingTree(InventoryWorkingTree):
 
     def unlock(self):
         """Unlock in format 4 trees needs to write the entire dirstate."""
-        if not self._control_files.is_locked():
-            # Not locked by us: refuse (LockNotHeld) without unlocking the
-            # branch, whose lock was not taken through this tree.
-            return self._control_files.unlock()
         if self._control_files._lock_count == 1:
             # do non-implementation specific cleanup
             self._cleanup()
